@@ -20,20 +20,21 @@ class MidSampler(CornerSampler):
 
 
 from black_it.loss_functions.minkowski import MinkowskiLoss  # noqa: E402
-from vlib.models import InjectedFault  # noqa: E402
+from vlib.models import InjectedFault, InjectedInterrupt  # noqa: E402
 
 
 class FailingMinkowski(MinkowskiLoss):
     """Minkowski loss that raises InjectedFault at its k-th evaluation (k=None: never)."""
 
-    def __init__(self, k=None, **kw):
+    def __init__(self, k=None, interrupt=False, **kw):
         super().__init__(**kw)
         self.k = k
         self.calls = 0
+        self.interrupt = interrupt
 
     def compute_loss(self, sim, real):
         i = self.calls
         self.calls += 1
         if self.k is not None and i == self.k:
-            raise InjectedFault(f"loss call {i}")
+            raise (InjectedInterrupt if self.interrupt else InjectedFault)(f"loss call {i}")
         return super().compute_loss(sim, real)
